@@ -181,6 +181,64 @@ Proof.
     + rewrite IH. destruct (s_collect step r); [rewrite app_assoc|]; reflexivity.
 Qed.
 
+(* for i, x := range xs  from index k >= 1 on: the body may test its index against 0 *)
+Lemma loop_range_enum_collect : forall (L' R : Type) (step : string -> list string + gerror)
+    (mk : gerror -> R) (k : Z) (xs : list string)
+    (body : list string -> Z * string -> ctl (list string) (list string) R) acc,
+  (1 <= k)%Z ->
+  (forall acc i x, (1 <= i)%Z ->
+     cont_to_next (body acc (i, x)) = match step x with
+                                      | inl l => Next (acc ++ l)
+                                      | inr e => Ret (mk e)
+                                      end) ->
+  @loop_range_aux (Z * string) (list string) L' R body (enumerate k xs) acc
+  = match s_collect step xs with
+    | inl l => Next (acc ++ l)
+    | inr e => Ret (mk e)
+    end.
+Proof.
+  intros L' R step mk k xs body acc Hk H. revert k acc Hk.
+  induction xs as [|x r IH]; intros k acc Hk; cbn [enumerate loop_range_aux s_collect].
+  - rewrite app_nil_r. reflexivity.
+  - specialize (H acc k x Hk). destruct (body acc (k, x)) as [l'|v|l'|l']; cbn [cont_to_next] in H;
+      destruct (step x) as [l|e]; try discriminate; inversion H; subst.
+    + rewrite IH by lia. destruct (s_collect step r); [rewrite app_assoc|]; reflexivity.
+    + reflexivity.
+    + rewrite IH by lia. destruct (s_collect step r); [rewrite app_assoc|]; reflexivity.
+Qed.
+
+(* for i, x := range x0 :: xs: the first entry (i = 0) has a step of its own *)
+Lemma loop_range_enum0_collect : forall (L' R : Type) (step0 step : string -> list string + gerror)
+    (mk : gerror -> R) (x0 : string) (xs : list string)
+    (body : list string -> Z * string -> ctl (list string) (list string) R) acc,
+  (forall acc x, cont_to_next (body acc (0%Z, x)) = match step0 x with
+                                                   | inl l => Next (acc ++ l)
+                                                   | inr e => Ret (mk e)
+                                                   end) ->
+  (forall acc i x, (1 <= i)%Z ->
+     cont_to_next (body acc (i, x)) = match step x with
+                                      | inl l => Next (acc ++ l)
+                                      | inr e => Ret (mk e)
+                                      end) ->
+  @loop_range_aux (Z * string) (list string) L' R body (enumerate 0 (x0 :: xs)) acc
+  = match (match step0 x0 with
+           | inr e => inr e
+           | inl l => match s_collect step xs with
+                      | inr e => inr e
+                      | inl m => inl (l ++ m)
+                      end
+           end) with
+    | inl l => Next (acc ++ l)
+    | inr e => Ret (mk e)
+    end.
+Proof.
+  intros L' R step0 step mk x0 xs body acc H0 H1. cbn [enumerate loop_range_aux].
+  specialize (H0 acc x0). destruct (body acc (0%Z, x0)) as [l'|v|l'|l']; cbn [cont_to_next] in H0;
+    destruct (step0 x0) as [l|e]; try discriminate; inversion H0; subst; try reflexivity;
+    (rewrite (loop_range_enum_collect L' R step mk (0 + 1) xs body (acc ++ l)) by (try lia; exact H1);
+     destruct (s_collect step xs); [rewrite app_assoc|]; reflexivity).
+Qed.
+
 (* an error that comes out of s_collect is one of the steps' errors; if those are never nil … *)
 Lemma s_collect_err : forall (A : Type) (step : A -> list string + gerror) xs e,
   (forall x e, step x = inr e -> err_is_nil e = false) ->
@@ -343,7 +401,8 @@ Ltac red_ctl :=
 (* loops over lists that are known by now (e.g. the option prefixes of the requested plugins) *)
 Ltac red_loops :=
   cbn [bind_ctl fn_result fst snd negb andb orb err_is_nil err_eqb exec_run unskip
-       loop_range_aux loop_while_range_aux s_collect existsb cont_to_next
+       loop_range_aux loop_while_range_aux s_collect existsb cont_to_next enumerate
+       Z.add Z.gtb Z.ltb Z.leb Z.geb Z.compare Pos.compare Pos.add
        nth length Z.of_nat Z.eqb Pos.of_succ_nat Pos.succ Pos.eqb app
        is_dir is_regular node_name
        g_InputDir g_ProtocPath g_Recurse g_VTProto g_GRPC g_Include].
@@ -354,11 +413,7 @@ Ltac no_loop T :=
   | context [@loop_range_aux] => fail
   | context [@loop_while_range_aux] => fail
   | context [@fs_walk_dir] => fail
-  | context [@s_collect] =>
-      lazymatch goal with
-      | |- context [@loop_range_aux] => fail
-      | _ => idtac
-      end
+  | context [@s_collect] => fail
   | _ => idtac
   end.
 
@@ -379,8 +434,10 @@ Ltac split_atom :=
       | _ => no_loop T; destruct T eqn:?
       end
   | |- context [s_collect ?f ?xs] =>
+      (* only once the loop over xs has been turned into this s_collect *)
       lazymatch goal with
-      | |- context [@loop_range_aux] => fail
+      | |- context [loop_range_aux _ xs _] => fail
+      | |- context [loop_range_aux _ (enumerate _ xs) _] => fail
       | _ => idtac
       end;
       let H := fresh "Hcol" in
@@ -410,9 +467,24 @@ with err_premise :=
   intros x e; cbv beta; red_loops; repeat (split_atom; red_loops);
   intros; first [ congruence | cbn [negb] in *; congruence ].
 
+(* tests of a loop index that is known to be >= 1 *)
+Ltac index_facts :=
+  repeat match goal with
+  | Hi : (1 <= ?i)%Z |- context [Z.gtb ?i 0] =>
+      replace (Z.gtb i 0) with true by (symmetry; apply Z.gtb_lt; lia)
+  | Hi : (1 <= ?i)%Z |- context [Z.ltb 0 ?i] =>
+      replace (Z.ltb 0 i) with true by (symmetry; apply Z.ltb_lt; lia)
+  | Hi : (1 <= ?i)%Z |- context [Z.geb ?i 1] =>
+      replace (Z.geb i 1) with true by (symmetry; apply Z.geb_le; lia)
+  | Hi : (1 <= ?i)%Z |- context [Z.leb 1 ?i] =>
+      replace (Z.leb 1 i) with true by (symmetry; apply Z.leb_le; lia)
+  | Hi : (1 <= ?i)%Z |- context [Z.eqb ?i 0] =>
+      replace (Z.eqb i 0) with false by (symmetry; apply Z.eqb_neq; lia)
+  end.
+
 Ltac unfold_hand :=
-  unfold s_run, s_argv, s_include_args, s_file_args, s_mapping_args, s_plugin_flags, s_protoc,
-         s_has_go_package, str_cut, str_splitn2, go_package_marker in *.
+  unfold s_run, s_argv, s_file_args, s_mapping_args, s_plugin_flags, s_protoc,
+         s_has_go_package, str_cut, str_splitn2.
 
 Ltac inj_pairs :=
   repeat match goal with
@@ -440,6 +512,6 @@ Ltac close_goal :=
 
 Ltac crush :=
   intros; repeat match goal with u : unit |- _ => destruct u end;
-  cbv beta; unfold str_cut, str_splitn2, go_package_marker in *; prim_rewrites; red_loops;
+  cbv beta; unfold str_cut, str_splitn2; prim_rewrites; red_loops;
   repeat (split_atom; red_loops);
   try solve [close_goal].
